@@ -1339,6 +1339,56 @@ def explore_fs_races(model, rec, workdir, n_random=4, n_policies=4, seed=0):
                 return
 
 
+def explore_selective(model, rec, workdir, n_random=6, seed=0):
+    """selective extraction (extract(targets=...)) of a multi-folder archive: opened by name (one thread per folder) it must
+    deliver what the sequential path (archive opened from a stream) delivers, for target sets that pick any members of any
+    folders -- in particular members that are not the first of their folder"""
+    rng = random.Random(seed)
+
+    def fo(chain, *ms):
+        return {"chain": chain, "members": [[n, d.hex()] for n, d in ms]}
+    cases = [{"folders": [fo("copy", ("a0", b"A" * 9), ("a1", b"B" * 7), ("a2", b"C" * 5)), fo("lzma2", ("b0", b"D" * 30), ("b1", b"E" * 11))],
+              "limit": 64}]
+    for _ in range(n_random):
+        folders, k = [], 0
+        for f in range(rng.choice([2, 3, 4])):
+            ms = []
+            for _m in range(rng.choice([1, 2, 3])):
+                ms.append(("d%d/m%d" % (f % 2, k), gen_data(rng, rng.choice([1, 9, 40]))))
+                k += 1
+            folders.append(fo(rng.choice(["copy", "copy", "lzma2"]), *ms))
+        cases.append({"folders": folders, "limit": rng.choice([8, 64])})
+    for ci, case in enumerate(cases):
+        d = os.path.join(workdir, "sel%d" % ci)
+        os.makedirs(d)
+        path, lay = build(case, d)
+        names = [n for f in case["folders"] for n, _ in f["members"]]
+        per_folder = [[n for n, _ in f["members"]] for f in case["folders"]]
+        tsets = [[ms[-1] for ms in per_folder], [ms[len(ms) // 2] for ms in per_folder[1:]], [per_folder[0][-1]], names[1::2]]
+        tsets += [rng.sample(names, rng.randrange(1, len(names) + 1)) for _ in range(3)]
+        for ti, targets in enumerate(tsets):
+            outs = {}
+            for how in ("stream", "name"):
+                out = os.path.join(d, "out_%s_%d" % (how, ti))
+                try:
+                    src = io.BytesIO(open(path, "rb").read()) if how == "stream" else path
+                    with py7zr.SevenZipFile(src, "r") as z:
+                        z.extract(path=out, targets=list(targets))
+                    outs[how] = (["ok"], snapshot(out))
+                except Exception as e:  # noqa
+                    outs[how] = (exc_tuple(e), snapshot(out))
+            rec.count(("selective", ci, ti, tuple(targets)), nontrivial=len(case["folders"]) >= 2)
+            rec.dist("selective_targets", "%d of %d" % (len(targets), len(names)))
+            want = {n: bytes.fromhex(h) for f in case["folders"] for n, h in f["members"] if n in targets}
+            if outs["name"] != outs["stream"] or outs["stream"] != (["ok"], want):
+                rec.violation("extract(targets=%r) of a %d-folder archive: opened by name (one thread per folder) gives %s, opened from a "
+                              "stream %s, selected members are %r" % (
+                                  targets, len(case["folders"]), (outs["name"][0], sorted(outs["name"][1])),
+                                  (outs["stream"][0], sorted(outs["stream"][1])), sorted(want)),
+                              {"kind": "selective", "case": case, "targets": list(targets)}, match_keys={"kind": "selective-parallel"})
+                return
+
+
 # ------------------------------------------------------------------ case generation
 def gen_data(rng, n):
     t = rng.choice(["text", "period", "random"])
@@ -1506,7 +1556,9 @@ def run(ctx):
         fs_part = lambda m, r, w: explore_fs_races(m, r, w, n_random=4 if tier == "quick" else 40,  # noqa
                                                    n_policies=4 if tier == "quick" else 24, seed=ctx["seed"])
         fs_part.__name__ = "explore_fs_races"
-        for part in (explore_collision, explore_two_damaged, explore_modes, fs_part):
+        sel_part = lambda m, r, w: explore_selective(m, r, w, n_random=6 if tier == "quick" else 80, seed=ctx["seed"])  # noqa
+        sel_part.__name__ = "explore_selective"
+        for part in (explore_collision, explore_two_damaged, explore_modes, fs_part, sel_part):
             sub = os.path.join(wd, part.__name__)
             os.makedirs(sub)
             try:
@@ -1614,6 +1666,20 @@ def replay(d):
             if case.get("damage"):
                 return 1 if (res[0] == "ok" or res[1] != ref["result"][1]) else 0
             return 1 if (res != ["ok"] or outs != ref["outs"]) else 0
+        if kind == "selective":
+            case, targets = r["case"], r["targets"]
+            path, lay = build(case, wd)
+            res = {}
+            for how in ("stream", "name"):
+                out = os.path.join(wd, "out_" + how)
+                try:
+                    with py7zr.SevenZipFile(io.BytesIO(open(path, "rb").read()) if how == "stream" else path, "r") as z:
+                        z.extract(path=out, targets=list(targets))
+                    res[how] = (["ok"], snapshot(out))
+                except Exception as e:  # noqa
+                    res[how] = (exc_tuple(e), snapshot(out))
+                print(how, res[how][0], hexouts(res[how][1]))
+            return 1 if res["name"] != res["stream"] or res["stream"][0] != ["ok"] else 0
         if kind == "fs-race":
             case = r["case"]
             path, lay = build(case, wd)
